@@ -206,10 +206,20 @@ func AttrQuote(s string) string {
 	return `"` + r.Replace(s) + `"`
 }
 
-func printDirectives(ds []Directive) string {
+func printDirectives(ds []Directive) string { return (&printer{}).directives(ds, false) }
+
+// PrintDirectives is the canonical source text of a directive chain (the identity of a print command
+// is its expression plus this).
+func PrintDirectives(ds []Directive) string { return printDirectives(ds) }
+
+func (p *printer) directives(ds []Directive, vary bool) string {
 	var b strings.Builder
 	for _, d := range ds {
-		b.WriteString("|" + d.Name)
+		if vary {
+			b.WriteString(p.bar() + d.Name)
+		} else {
+			b.WriteString("|" + d.Name)
+		}
 		for i, a := range d.Args {
 			if i == 0 {
 				b.WriteString(":")
@@ -225,13 +235,50 @@ func printDirectives(ds []Directive) string {
 var soyKeywords = map[string]bool{"param": true, "call": true, "if": true, "let": true, "for": true, "foreach": true, "msg": true, "print": true, "switch": true, "case": true, "default": true, "else": true, "elseif": true, "css": true, "log": true, "literal": true, "template": true, "namespace": true, "alias": true, "plural": true, "ifempty": true, "debugger": true, "sp": true, "nil": true, "lb": true, "rb": true, "and": true, "or": true, "not": true, "null": true, "true": true, "false": true}
 
 type printer struct {
-	b    strings.Builder
-	file *File
+	b     strings.Builder
+	file  *File
+	ws    uint32
+	inMsg bool
+}
+
+// sp is the white space between the parts of a tag: mostly one space, sometimes two, sometimes a line
+// break with indentation (tags written over several lines are common in real templates). The choice
+// is a fixed function of how many were written before, so a model always prints the same text.
+func (p *printer) sp() string {
+	p.ws++
+	switch (p.ws * 2654435761) >> 28 {
+	case 0:
+		return "\n    "
+	case 1:
+		return "  "
+	case 2:
+		return "\r\n\t"
+	}
+	return " "
+}
+
+// bar is the pipe before a print directive, now and then with a space in front.
+func (p *printer) bar() string {
+	p.ws++
+	if (p.ws*2654435761)>>29 == 0 {
+		return " |"
+	}
+	return "|"
 }
 
 func (p *printer) cmds(cs []Cmd) {
 	for i := range cs {
 		p.cmd(&cs[i])
+		// now and then a comment between two commands neither of which is text (it contributes nothing)
+		if i+1 < len(cs) && !p.inMsg && cs[i].K != "text" && cs[i+1].K != "text" && cs[i].K != "literal" && cs[i+1].K != "literal" {
+			p.ws++
+			switch (p.ws * 2654435761) >> 28 {
+			case 5:
+				p.b.WriteString("/* between commands */")
+			case 6:
+				p.b.WriteString(" // end of line\n")
+			}
+		}
 	}
 }
 
@@ -290,13 +337,16 @@ func (p *printer) cmd(c *Cmd) {
 		if c.Style == 1 {
 			kw = "print "
 		}
-		b.WriteString(tag(kw + PrintExpr(c.Expr) + printDirectives(c.Directives)))
+		if kw != "" {
+			kw = "print" + p.sp()
+		}
+		b.WriteString(tag(kw + PrintExpr(c.Expr) + p.directives(c.Directives, true)))
 	case "if":
 		for i, br := range c.Branches {
 			if i == 0 {
-				b.WriteString(tag("if " + PrintExpr(br.Cond)))
+				b.WriteString(tag("if" + p.sp() + PrintExpr(br.Cond)))
 			} else {
-				b.WriteString(tag("elseif " + PrintExpr(br.Cond)))
+				b.WriteString(tag("elseif" + p.sp() + PrintExpr(br.Cond)))
 			}
 			p.cmds(br.Body)
 		}
@@ -306,14 +356,14 @@ func (p *printer) cmd(c *Cmd) {
 		}
 		b.WriteString("{/if}")
 	case "switch":
-		b.WriteString(tag("switch " + PrintExpr(c.Expr)))
+		b.WriteString(tag("switch" + p.sp() + PrintExpr(c.Expr)))
 		b.WriteString(c.Gap)
 		for _, br := range c.Branches {
 			vs := make([]string, len(br.Values))
 			for i, v := range br.Values {
 				vs[i] = PrintExpr(v)
 			}
-			b.WriteString(tag("case " + strings.Join(vs, ", ")))
+			b.WriteString(tag("case" + p.sp() + strings.Join(vs, ","+p.sp())))
 			p.cmds(br.Body)
 		}
 		if c.HasElse {
@@ -326,7 +376,7 @@ func (p *printer) cmd(c *Cmd) {
 		if c.Style == 1 {
 			kw = "foreach"
 		}
-		b.WriteString(tag(kw + " $" + c.Var + " in " + PrintExpr(c.Expr)))
+		b.WriteString(tag(kw + p.sp() + "$" + c.Var + p.sp() + "in" + p.sp() + PrintExpr(c.Expr)))
 		p.cmds(c.Body)
 		if c.HasElse {
 			b.WriteString("{ifempty}")
@@ -334,7 +384,7 @@ func (p *printer) cmd(c *Cmd) {
 		}
 		b.WriteString("{/" + kw + "}")
 	case "let":
-		b.WriteString(tag("let $" + c.Var + ": " + PrintExpr(c.Expr) + " /"))
+		b.WriteString(tag("let" + p.sp() + "$" + c.Var + ":" + p.sp() + PrintExpr(c.Expr) + p.sp() + "/"))
 	case "letc":
 		b.WriteString("{let $" + c.Var + "}")
 		p.cmds(c.Body)
@@ -343,12 +393,12 @@ func (p *printer) cmd(c *Cmd) {
 		name, nameAttr := p.callName(c.Call)
 		inner := "call" + name + nameAttr
 		if c.Call.DataAll {
-			inner += ` data="all"`
+			inner += p.sp() + `data="all"`
 		} else if c.Call.Data != nil {
-			inner += " data=" + AttrQuote(PrintExpr(c.Call.Data))
+			inner += p.sp() + "data=" + AttrQuote(PrintExpr(c.Call.Data))
 		}
 		if len(c.Call.Params) == 0 {
-			b.WriteString(tag(inner + " /"))
+			b.WriteString(tag(inner + p.sp() + "/"))
 			return
 		}
 		b.WriteString(tag(inner))
@@ -367,9 +417,9 @@ func (p *printer) cmd(c *Cmd) {
 				p.cmds(pr.Content)
 				b.WriteString("{/param}")
 			case pr.Style == 0:
-				b.WriteString(tag("param " + pr.Key + ": " + PrintExpr(pr.Value) + " /"))
+				b.WriteString(tag("param" + p.sp() + pr.Key + ":" + p.sp() + PrintExpr(pr.Value) + p.sp() + "/"))
 			default:
-				b.WriteString(tag("param key=" + AttrQuote(pr.Key) + " value=" + AttrQuote(PrintExpr(pr.Value)) + " /"))
+				b.WriteString(tag("param" + p.sp() + "key=" + AttrQuote(pr.Key) + p.sp() + "value=" + AttrQuote(PrintExpr(pr.Value)) + p.sp() + "/"))
 			}
 			b.WriteString(c.Gap)
 		}
@@ -393,10 +443,12 @@ func (p *printer) cmd(c *Cmd) {
 		}
 		inner += " desc=" + AttrQuote(c.Desc)
 		b.WriteString("{" + inner + "}")
+		p.inMsg = true
 		p.cmds(c.Body)
+		p.inMsg = false
 		b.WriteString("{/msg}")
 	case "plural":
-		b.WriteString(tag("plural " + PrintExpr(c.Expr)))
+		b.WriteString(tag("plural" + p.sp() + PrintExpr(c.Expr)))
 		b.WriteString(c.Gap)
 		for _, br := range c.Branches {
 			b.WriteString("{case " + strconv.Itoa(br.Int) + "}")
